@@ -120,8 +120,10 @@ func main() {
 	out := flag.String("out", "", "output module directory")
 	plugins := flag.String("plugins", "", "directory with protoc-gen-go, protoc-gen-gogo, protoc-gen-fastmarshal")
 	sets := flag.String("sets", "default=", "option sets: name=params;name=params")
-	flavours := flag.String("flavours", "gogo,gv2", "flavours")
+	flavours := flag.String("flavours", "gogo,gv2,gv1", "flavours")
 	only := flag.String("files", "", "comma separated file bases (default all)")
+	rseed := flag.Int64("rseed", 0, "seed of the random schemas")
+	nrand := flag.Int("nrandom", 0, "number of seeded random schema files")
 	flag.Parse()
 	if *out == "" || *plugins == "" {
 		fmt.Fprintln(os.Stderr, "usage: corpusgen -out dir -plugins dir")
@@ -146,11 +148,14 @@ func main() {
 			setParams = sp[1]
 		}
 		for _, fl := range strings.Split(*flavours, ",") {
-			for _, f := range corpus.Files() {
+			for _, f := range append(corpus.Files(), corpus.RandomFiles(*rseed, *nrand)...) {
 				if len(want) > 0 && !want[f.Base] {
 					continue
 				}
 				if len(f.Only) > 0 && !contains(f.Only, fl) {
+					continue
+				}
+				if fl == "gv1" && (!corpus.LegacyV1Bases[f.Base] || setName != "default") {
 					continue
 				}
 				// one protobuf package per (option set, flavour): all variants are linked into one driver binary
@@ -178,7 +183,7 @@ func main() {
 				}
 				// 1. the runtime's own generator
 				rtBin, api := "protoc-gen-go", "v2"
-				if fl == "gogo" {
+				if fl == "gogo" || fl == "gv1" {
 					rtBin, api = "protoc-gen-gogo", "v1"
 				}
 				rtReq := &pluginpb.CodeGeneratorRequest{FileToGenerate: []string{protoPath}, Parameter: proto.String("paths=source_relative"), ProtoFile: protos,
@@ -190,7 +195,15 @@ func main() {
 					continue
 				}
 				for _, gf := range resp.File {
-					writeFile(filepath.Join(*out, gf.GetName()), gf.GetContent())
+					content := gf.GetContent()
+					if fl == "gv1" {
+						// the legacy (pre-APIv2) google flavour: golang/protobuf-style structs with XXX_ methods that the
+						// github.com/golang/protobuf runtime handles through its legacy wrapper
+						content = strings.ReplaceAll(content, `proto "github.com/gogo/protobuf/proto"`, `proto "github.com/golang/protobuf/proto"`)
+						content = strings.ReplaceAll(content, "proto.GoGoProtoPackageIsVersion3", "proto.ProtoPackageIsVersion3")
+						content = strings.ReplaceAll(content, "proto.GoGoProtoPackageIsVersion2", "proto.ProtoPackageIsVersion3")
+					}
+					writeFile(filepath.Join(*out, gf.GetName()), content)
 				}
 				// 2. protoc-gen-fastmarshal, twice (different cwd, GOMAXPROCS, TZ)
 				params := "paths=source_relative,apiversion=" + api
